@@ -217,7 +217,37 @@ func vAssertScanValue(lit []byte, mant uint64, exp int, neg bool, trunc bool, id
 	}
 	ok := neg == vneg
 	if trunc {
-		ok = ok && lo.Cmp(x) <= 0 && x.Cmp(hi) < 0
+		ok = ok && (mant == 0 || (lo.Cmp(x) <= 0 && x.Cmp(hi) < 0))
+	} else {
+		ok = ok && lo.Cmp(x) == 0
+	}
+	if !ok {
+		vFailures = append(vFailures, id)
+	}
+}
+
+func vAssertScanValue(lit []byte, mant uint64, exp int, neg bool, trunc bool, id string) {
+	x, vneg := vLitRat(lit)
+	if x == nil {
+		vFailures = append(vFailures, id)
+		return
+	}
+	if exp > 5000 || exp < -5000 {
+		return
+	}
+	scale := new(big.Rat).SetInt(new(big.Int).Exp(big.NewInt(10), big.NewInt(int64(abs(exp))), nil))
+	lo := new(big.Rat).SetInt(new(big.Int).SetUint64(mant))
+	hi := new(big.Rat).SetInt(new(big.Int).Add(new(big.Int).SetUint64(mant), big.NewInt(1)))
+	if exp >= 0 {
+		lo.Mul(lo, scale)
+		hi.Mul(hi, scale)
+	} else {
+		lo.Quo(lo, scale)
+		hi.Quo(hi, scale)
+	}
+	ok := neg == vneg
+	if trunc {
+		ok = ok && (mant == 0 || (lo.Cmp(x) <= 0 && x.Cmp(hi) < 0))
 	} else {
 		ok = ok && lo.Cmp(x) == 0
 	}
